@@ -24,7 +24,7 @@ def make_case(forms):
 
 
 def explore(ctx):
-    n = 400 if ctx.quick else 10000
+    n = 1200 if ctx.quick else 20000
     cases = []
     kinds = {"define": 0, "expr": 0, "apply": 0, "rest": 0, "internal-define": 0, "lambda": 0, "tick": 0}
     for k in range(n):
@@ -39,9 +39,13 @@ def explore(ctx):
             kinds["tick"] += f.count("(tick ")
         cases.append(make_case(forms))
     # closures created in different rounds of (mutually) tail-recursive loops: every call binds fresh locations
-    for k in range(40 if ctx.quick else 1500):
+    for k in range(120 if ctx.quick else 3000):
         forms = gen.loop_closure_program(ctx.rng)
         kinds["lambda"] += sum(f.count("(lambda") for f in forms)
+        cases.append(make_case(forms))
+    for k in range(120 if ctx.quick else 3000):
+        forms = gen.forward_reference_program(ctx.rng)
+        kinds["internal-define"] += sum(f.count("(define") for f in forms)
         cases.append(make_case(forms))
     results, ndis = common.run_cases(ctx, cases, compare=common.compare_fuel)
     outcomes = {"value": 0, "none": 0, "error": 0, "timeout/abort": 0}
@@ -68,7 +72,9 @@ def explore(ctx):
                 "without rest parameter, internal definitions, recursion on a decreasing counter, define sugar vs "
                 "lambda, direct call vs apply, operands wrapped in ticking calls at random), plus loops (self and mutual tail "
                 "recursion under if / cond / thunks) that create a closure per round capturing parameters and internal "
-                "definitions and let it escape through a list, an argument or a vector, evaluated form by form "
+                "definitions and let it escape through a list, an argument or a vector, and procedure bodies whose first internal "
+                "definition is initialised by a closure made on the spot that refers to later internal definitions (with and "
+                "without parameters, an outer binding of the same name present or not), evaluated form by form "
                 "on one interpreter; observables per form: canonical value or error kind+location, tick trace, "
                 "stdout. non-trivial = distinct form that produced a value and contains a lambda, an apply or more "
                 "than three nested calls",
